@@ -30,6 +30,6 @@ CONFIG = dict(
     ],
     leanchecker=True,
     timeout={"quick": 900, "thorough": 7200, "widen": 1800},
-    level_text="proof on the model for all schedules: tags unique; every registered command completed at most once, never lost, and exactly once in every terminal state (pendingCmds empty there); the model never panics; the reader always reaches close(decCh) and Close returns (measure + progress); literal headers reach the wire and continuation requests are granted in registration order; lockset discipline; partial: data-race freedom itself belongs to the Go memory model and is supported by -race runs; the model is tied to the real client by enforcing its schedules on the instrumented code on every run",
+    level_text="proof on the model for all schedules: tags unique; every registered command completed at most once, never lost, and exactly once in every terminal state (pendingCmds empty there); the model never panics; the reader always reaches close(decCh) and Close returns (measure + progress); literal headers reach the wire and continuation requests are granted in registration order, and requests of two commands never coexist in the queue; lockset discipline; partial: data-race freedom itself belongs to the Go memory model and is supported by -race runs; the model is tied to the real client by enforcing its schedules on the instrumented code on every run",
     level_note="Trusted: Lean kernel; harness, instrumentation and driver. Which theorems are proved and which clauses are validated by the oracle only is listed at the top of lean/GoImap/Props/C13.lean.",
 )
